@@ -569,7 +569,9 @@ func (s *Sim) step(kind OpKind, addr uintptr, gosched bool) {
 		s.Trace = append(s.Trace, TraceEvent{t.ID, kind, ord})
 	}
 	t.CallSteps++
-	if s.cfg.CallStepLimit > 0 && t.CallSteps > s.cfg.CallStepLimit {
+	// (not while a victim is frozen for the rest of the run: a writer behind it
+	// may legitimately wait for ever)
+	if s.cfg.CallStepLimit > 0 && !s.EndEarly && t.CallSteps > s.cfg.CallStepLimit {
 		s.endRun(OutLivelock, s.describe(fmt.Sprintf("livelock: one call has taken more than %d steps of its own without returning", s.cfg.CallStepLimit)))
 		s.parkForever(t)
 		return
